@@ -925,6 +925,7 @@ struct Extractor
             if (auto* cm = le->getCallOperator())
             {
                 o.str("callee", lambdaName(cm));
+                o.str("sig", sigOf(cm));
                 std::string li = lambdaInst(cm);
                 if (li != lambdaName(cm))
                     o.str("inst", li);
@@ -957,6 +958,7 @@ struct Extractor
                 if (md->getParent()->isLambda())
                     cname = lambdaName(md);
             o.str("callee", cname);
+            o.str("sig", sigOf(fd));
             o.str("loc", locStr(e->getBeginLoc()));
             std::string mac = macroOf(e->getBeginLoc());
             if (!mac.empty())
@@ -1230,6 +1232,24 @@ struct Extractor
     //-----------------------------------------------------------------------//
     // Functions
     //-----------------------------------------------------------------------//
+    std::string sigOf(FunctionDecl const* fd)
+    {
+        std::string s = "(";
+        bool first = true;
+        for (auto* p : fd->parameters())
+        {
+            if (!first)
+                s += ",";
+            first = false;
+            s += typeStr(p->getType().getCanonicalType(), ctx);
+        }
+        s += ")";
+        if (auto* md = dyn_cast<CXXMethodDecl>(fd))
+            if (md->isConst())
+                s += "const";
+        return s;
+    }
+
     std::string lambdaInst(CXXMethodDecl const* cm)
     {
         DeclContext const* dc = cm->getParent()->getDeclContext();
@@ -1305,6 +1325,7 @@ struct Extractor
         if (inst != name)
             f.str("inst", inst);
         f.str("loc", loc);
+        f.str("sig", sigOf(fd));
         f.str("end", locStr(fd->getEndLoc()));
         f.str("ret", typeStr(fd->getReturnType(), ctx));
         {
@@ -1329,7 +1350,7 @@ struct Extractor
                 f.boolean("virtual", true);
                 std::vector<std::string> ov;
                 for (auto* o : md->overridden_methods())
-                    ov.push_back(o->getQualifiedNameAsString());
+                    ov.push_back(o->getQualifiedNameAsString() + sigOf(o));
                 f.raw("overrides", jstrlist(ov));
             }
             if (isa<CXXConstructorDecl>(md))
